@@ -10,7 +10,7 @@ def run(ctx):
     ctx.assumptions += ["densities are dyadic or the capacity comparison is strict, so density*layerWidth is compared exactly (ties admit both outcomes)"]
     ctx.model("MCChain", "NegChain_allpairs.cfg", workers=2, expect_violation="RoundedSepAllPairs",
               label="(shared layer model self-test)")
-    recs, meta, errors = lc.gather(ctx, ["random", "dense", "bounds"])
+    recs, meta, errors = lc.gather(ctx, ["random", "dense", "bounds", "relayout"])
     lc.check(ctx, "LayoutC04.cfg", recs, meta, "C04_")
     ctx.evaluations += len(recs)
     ctx.nontrivial += len({lc.keyof(r) for r in recs if len(r["layers"]) > 1})
